@@ -35,17 +35,36 @@ class C11(Prop):
         case.state["writes"] = 0
 
     def before_op(self, case, op):
-        if op[0] == "reopen":
+        if op[0] == "reopen" and not case.state.get("blind", 0):
             a, b = case.idx.raw()
             return {"raw": (a, b)}
         return None
+
+    # "blind" steps (see C15): no read, no flush between a request and the close/reopen/clear that follows it
+    def draw_probes(self, case, data):
+        if data.draw(st.integers(0, 3)) == 0:
+            return [("probe", "blind", data.draw(st.sampled_from([1, 1, 2])))]
+        return []
+
+    def run_probe(self, case, pop):
+        if pop[1] == "blind":
+            case.state["blind"] = pop[2]
 
     def after_op(self, case, op, out, pre):
         ctx = case.ctx
         st = case.state
         A = st["A"]
         kind = op[0]
-        if kind == "reopen":
+        blind = st.get("blind", 0) > 0
+        if blind:
+            st["blind"] -= 1
+            case.flag("unobserved-step")
+        if kind == "reopen" and pre is None:
+            if out.status != "ok":
+                ctx.fail("reopen-refused", "reopening an index that was closed cleanly failed: %r" % (out.exc,), case)
+            if st["writes"]:
+                st["reopen-after-writes"] = True
+        elif kind == "reopen":
             if out.status != "ok":
                 ctx.fail("reopen-refused", "reopening an index that was closed cleanly failed: %r" % (out.exc,), case)
             a0, b0 = pre["raw"]
@@ -85,6 +104,8 @@ class C11(Prop):
                 case.flag("writes-after-clear")
         if kind == "clear":
             st["cleared"] = True
+        if blind:
+            return
         lrus = sorted(case.led.closure)
         sa = case.call("observation of the never-closed index", ob.snapshot, A.traph, lrus)
         sb = case.call("observation of the reopened index", ob.snapshot, case.t, lrus)
